@@ -343,9 +343,8 @@ Proof.
       by (intros; symmetry; auto).
     assert (TE: forall X, tup_eq (choice_tuples G X T s es) (choice_tuples G X T s' es)).
     { intros X tv. split; apply choice_tuples_coincide_dir; [exact (B' s s' B) | exact (B' s' s Bs)]. }
-    intros (F & CH & CT). split; [apply (choice_elems_ok_coincide_dir G H T s s' es (B' s s' B) F)|].
-    split; [apply (proj1 (agg_holds_coincide s s' lg FCount rg _ _ A (TE H))); exact CH
-           |apply (proj1 (agg_holds_coincide s s' lg FCount rg _ _ A (TE T))); exact CT].
+    intros (F & CT). split; [apply (choice_elems_ok_coincide_dir G H T s s' es (B' s s' B) F)|].
+    apply (proj1 (agg_holds_coincide s s' lg FCount rg _ _ A (TE T))); exact CT.
   - assert (B': forall (s s': subst), (forall x, In x (vars_oguard lg ++ flat_map helem_vars es ++ vars_oguard rg) -> In x G -> s x = s' x) ->
                 forall e x, In e es -> In x (helem_vars e) -> In x G -> s x = s' x).
     { intros s0 s0' B0 e x I' Hx HG. apply B0; [|exact HG]. rewrite !in_app_iff. right. left.
@@ -355,12 +354,11 @@ Proof.
       by (intros; symmetry; auto).
     assert (TE: forall X, tup_eq (headagg_tuples G X T s es) (headagg_tuples G X T s' es)).
     { intros X tv. split; apply headagg_tuples_coincide_dir; [exact (B' s s' B) | exact (B' s' s Bs)]. }
-    intros (F & CH & CT). split.
+    intros (F & CT). split.
     { apply (choice_elems_ok_coincide_dir G H T s s' (map snd es)); [|exact F].
       intros e x I' Hx HG. apply in_map_iff in I'. destruct I' as [e0 [<- I0]].
       apply (B' s s' B e0); [exact I0 | | exact HG]. unfold helem_vars. apply in_app_iff. right. exact Hx. }
-    split; [apply (proj1 (agg_holds_coincide s s' lg f rg _ _ A (TE H))); exact CH
-           |apply (proj1 (agg_holds_coincide s s' lg f rg _ _ A (TE T))); exact CT].
+    apply (proj1 (agg_holds_coincide s s' lg f rg _ _ A (TE T))); exact CT.
   - tauto.
 Qed.
 
